@@ -411,6 +411,9 @@ func ParseTemplateSource(src []byte, format ast.Format, imported, noParseShow bo
 
 		// EndURL
 		case tokenEndURL:
+			if _, ok := p.parent().(*ast.URL); !ok {
+				return nil, nil, syntaxError(tok.pos, "unexpected end of URL, expecting {%% end %%}")
+			}
 			pos := p.parent().Pos()
 			pos.End = tok.pos.End - 1
 			p.removeLastAncestor()
